@@ -31,7 +31,7 @@ ANCHORS = [
     "raggedshape.py::ViewBase.ravel_multi_index", "raggedshape.py::ViewBase.unravel_multi_index", "raggedshape.py::ViewBase.index_array",
     "raggedshape.py::RaggedShape.size",
 ]
-CTORS = ["rows", "pyrows", "flat", "flat_nplens", "flatlist", "shape_tuple", "raggedshape", "flat_strided", "matrix"]
+CTORS = ["rows", "pyrows", "mixedrows", "flat", "flat_nplens", "flatlist", "shape_tuple", "raggedshape", "flat_strided", "matrix"]
 FLOOR_TAGS = ["ctor:" + c for c in CTORS] + ["kind:b", "kind:i", "kind:u", "kind:f", "v:small", "v:extreme", "v:nonfinite",
                                              "reject", "saveload", "matrix-roundtrip", "order:F", "order:T", "order:strided", "norows", "allempty", "e-first", "e-last", "e-mid", "e-consec", "e-none", "big-repr"]
 FLOOR_MONITORS = ["c01:readback", "c01:geometry", "c01:reject", "c01:result-independent", "inv:ragged"]
@@ -55,6 +55,9 @@ def build(case, flat, rows):
         return RA([r.copy() for r in rows], dtype=dt), True
     if ctor == "pyrows":
         return RA([r.tolist() for r in rows]), False   # dtype is numpy's default for the python values
+    if ctor == "mixedrows":
+        # typed rows of *different* dtypes and no dtype=: the element type is numpy's promotion of all rows, whatever their order
+        return RA([r.astype(d) for r, d in zip(rows, case["rowdtypes"])]), True
     if ctor == "flat":
         return RA(flat.copy(), list(lens)), True
     if ctor == "flat_nplens":
@@ -82,6 +85,11 @@ def run(case):
     dt = np.dtype(case["dtype"])
     n, tot = len(lens), sum(lens)
     flat = np.array(case["vals"], dtype=dt)
+    if case["ctor"] == "mixedrows" and tot:
+        parts = [r.astype(d) for r, d in zip(gen.split_rows(flat, lens), case["rowdtypes"])]
+        nonempty = [p_ for p_ in parts if len(p_)]
+        flat = np.concatenate(nonempty)           # numpy's promotion of the rows that have elements
+        dt = flat.dtype
     if case["ctor"] == "pyrows" and tot:
         # the values are whatever numpy makes of the python numbers (e.g. ints above 2**63 next to small ones -> float64)
         flat = np.array(flat.tolist())
@@ -101,7 +109,7 @@ def run(case):
     if not c.ok:
         return violated("constructor %s refused rows of lengths %s (%s): %r" % (case["ctor"], lens, dt, c), tags)
     ra, dtype_fixed = c.value
-    if tot == 0 and case["ctor"] in ("pyrows",):
+    if tot == 0 and case["ctor"] in ("pyrows", "mixedrows"):
         dtype_fixed = False
     if case["ctor"] == "rows":
         dtype_fixed = True
@@ -312,7 +320,15 @@ def directed():
     for lens in shapes:
         for i, ctor in enumerate(CTORS[:-1]):
             for dtype in (["int64", "bool", "uint8", "float32"] if ctor in ("flat", "rows") else [gen.DT_ALL[(i * 3 + len(lens)) % len(gen.DT_ALL)]]):
-                yield mk_case(lens, dtype, ctor, "small", rng=rng, saveload=(ctor in ("flat", "rows")))
+                c = mk_case(lens, dtype, ctor, "small", rng=rng, saveload=(ctor in ("flat", "rows")))
+                if ctor == "mixedrows":
+                    c.update(mixed_case(rng, lens))
+                yield c
+    for rd in (["int8", "float64", "int8"], ["bool", "int64", "int64"], ["float32", "float64", "float32"], ["uint8", "int8", "uint8"], ["int8", "int16", "int64"], ["int64", "int8", "bool"]):
+        for lens in ([2, 2, 1], [0, 3, 2], [1, 0, 2]):
+            c = mk_case(lens, "int64", "mixedrows", "small", vals=[1, 0, 100, 7, 1, 0][:sum(lens)])
+            c["rowdtypes"] = rd
+            yield c
     for dtype in gen.DT_ALL:
         yield mk_case([2, 0, 3, 1], dtype, "flat", "extreme", rng=rng, saveload=True)
         yield mk_case([0, 3, 0, 0], dtype, "rows", "extreme", rng=rng)
@@ -363,7 +379,17 @@ def random_case(rng, tier):
         return matrix_case(r_, c_, dtype, gen.values(rng, dtype, r_ * c_, vclass).tolist(), vclass, rng.choice(["C", "C", "F", "T", "strided"]))
     lens, _ = gen.length_vector(rng, tier)
     ctor = rng.choice(CTORS[:-1])
-    return mk_case(lens, dtype, ctor, vclass, rng=rng, saveload=rng.random() < 0.15)
+    c = mk_case(lens, dtype, ctor, vclass if ctor != "mixedrows" else "small", rng=rng, saveload=rng.random() < 0.15)
+    if ctor == "mixedrows":
+        c.update(mixed_case(rng, lens))
+    return c
+
+
+def mixed_case(rng, lens):
+    fam = rng.choice([["int8", "int16", "int64"], ["uint8", "int8", "int16"], ["bool", "int64"], ["int32", "float64"], ["float32", "float64"], ["uint8", "uint16", "float32"]])
+    rd = [rng.choice(fam) for _ in lens]
+    vals = [rng.randint(0, 100) for _ in range(sum(lens))]
+    return {"dtype": "int64", "vals": vals, "rowdtypes": rd, "vclass": "small"}
 
 
 def classify(case, res):
